@@ -188,7 +188,9 @@ def run_unit(ctx, unit):
         if unit["transport"] == "dir+fifo":
             # ... the ordinary file lies in a nested directory of a directory argument, with an empty sibling directory
             # ... and with siblings that hold no value (whatever order the directory is listed in, some entry follows the file)
-            case = core.Case(["@D@/in", "@D@/endless.fifo"] + largs, files=[("in/sub/deep/0-blank.json", b" \n"), ("in/sub/deep/first.json", first), ("in/sub/deep/er/empty.json", b""),
+            import zlib
+            fname = ("first", "data", "b", "records-2024", "x1", "q", "input.part", "k7")[zlib.crc32(repr((unit["args"], S, T, len(parts))).encode()) % 8]
+            case = core.Case(["@D@/in", "@D@/endless.fifo"] + largs, files=[("in/sub/deep/0-blank.json", b" \n"), ("in/sub/deep/%s.json" % fname, first), ("in/sub/deep/er/empty.json", b""),
                                                                              ("in/sub/deep/a-empty.json", b""), ("in/sub/deep/z-blank.json", b"\n\n"), ("in/sub/deep/m.json", b"")],
                              efifos=[("endless.fifo", rest, TAIL_PRE_U, TAIL_POST, cap)], watchdog_ms=30000)
         else:
